@@ -220,6 +220,9 @@ impl FixtureDatabase {
                 });
                 if let Some(previous_content) = previous_content {
                     let _ = self.get_parsed_ast(&file_path, &previous_content);
+                    // A query that read this file's imports after the new text was cached
+                    // and before that AST was may have cached an empty import set
+                    self.invalidate_cycle_cache();
                 }
                 return;
             }
